@@ -534,6 +534,40 @@ def run(chk):
                max_report=10 ** 6)
     c02h._attach_cases(chk, 'mass_eq_chem_mass_of_comp_plus_delta', ocases, identity, classify)
 
+    # ------------------------------------------------------------------ call sequences: the SAME adduct string in both mass modes, in both
+    # orders, each order in its own fresh interpreter (whatever is evaluated first must not fix the answer for the other mode): every ion
+    # of the quantifier's list with count 1, written in the string and passed as argument; mass vs chem_mass(composition) + delta each time
+    seq_items = []
+    for sym, q in cm.ADDUCT_IONS:
+        z = {'+': 1, '2+': 2, '-': -1}[q]
+        for ion in [f'+{sym}{q}', f'{sym}{q}'] + ([f'+{sym}+2'] if q == '2+' else []):
+            seq_items.append((ion, 'string', f'PEPTIDE/{z}[{ion}]', {}))
+            seq_items.append((ion, 'argument', 'PEPTIDE', {'charge': z, 'charge_adducts': ion}))
+    seq_cases = []
+    for order in ([True, False], [False, True]):
+        rows = _adduct_sequence(core.REPO, order, [(t, kw) for _, _, t, kw in seq_items])
+        for (ion, form, t, kw), row in zip(seq_items, rows):
+            seq_cases.append({'adduct': ion, 'written_as': form, 'proforma': t, 'kw': kw,
+                              'order_of_monoisotopic': order, 'results': row})
+
+    def o_seq(c):
+        for mono, m, via in c['results']:
+            if isinstance(m, str):
+                return f'{c["proforma"]} {c["kw"]} monoisotopic={mono}: {m}'
+            if abs(m - via) > (1e-4 if mono else 1e-3):
+                return (f'fresh interpreter, calls in the order monoisotopic={c["order_of_monoisotopic"]}: at monoisotopic={mono} '
+                        f'mass({c["proforma"]!r}, {c["kw"]}) = {m!r} but chem_mass(composition) + delta = {via!r}')
+        return None
+
+    chk.oracle('adduct_both_modes_both_orders', seq_cases, o_seq, nontrivial_fn=lambda c: True,
+               key_fn=lambda c: json.dumps([c['proforma'], c['kw'], c['order_of_monoisotopic']]), max_report=2, recheck=False)
+    # these witnesses replay in a fresh interpreter (the single-call witnesses of a history dependence do not): report them first
+    chk.failures.sort(key=lambda f: f['oracle'] != 'adduct_both_modes_both_orders')
+    for f in chk.failures:
+        if f['oracle'] == 'adduct_both_modes_both_orders':
+            f['function'] = 'peptacular.mass / peptacular.comp_mass'
+            f['rerun'] = './check C03 --replay <this file>'
+
     # ------------------------------------------------------------------ every Unimod row, by id and by name (exhaustive; witness
     # producer for unimod_mono_consistent / unimod_avg_*): tabulated mass vs mass of the tabulated composition, and mass() vs
     # comp_mass() of a peptide carrying it.  PSI-MOD: the rows outside psimodMonoExcluded (sampled in quick).
@@ -634,7 +668,47 @@ def classify(f):
     return None
 
 
+_SEQ_SNIPPET = """
+import sys, json
+import peptacular as pt
+from peptacular.chem.chem_util import chem_mass
+order, items = json.loads(sys.argv[1]), json.loads(sys.argv[2])
+out = []
+for text, kw in items:
+    row = []
+    for mono in order:
+        try:
+            m = pt.mass(text, monoisotopic=mono, **kw)
+            comp, delta = pt.comp_mass(text, **kw)
+            row.append([mono, m, chem_mass(comp, monoisotopic=mono) + delta])
+        except Exception as e:
+            row.append([mono, 'raised ' + type(e).__name__ + ': ' + str(e)[:80], None])
+    out.append(row)
+print(json.dumps(out))
+"""
+
+
+def _adduct_sequence(repo, order, items):
+    """for every (text, kwargs): mass and chem_mass(comp_mass) in each mode of `order`, all in ONE fresh interpreter"""
+    import subprocess
+    env = {k: v for k, v in os.environ.items() if k != 'PYTHONPATH'}
+    env['PYTHONPATH'] = os.path.join(repo, 'src')
+    env['PYTHONDONTWRITEBYTECODE'] = '1'
+    p = subprocess.run(['/venv/bin/python', '-W', 'ignore', '-c', _SEQ_SNIPPET, json.dumps(order), json.dumps(items)], cwd='/tmp',
+                       env=env, capture_output=True, text=True)
+    if p.returncode != 0:
+        raise core.InfraError('call-sequence stage: the tree under test cannot be run: ' + p.stderr[-800:])
+    return json.loads(p.stdout.strip().split('\n')[-1])
+
+
 def replay(chk, obj):
+    if obj.get('oracle') == 'adduct_both_modes_both_orders' and isinstance(obj.get('case'), dict):
+        c = obj['case']
+        print('input    :', c['proforma'], c['kw'], 'order of monoisotopic:', c['order_of_monoisotopic'])
+        for mono, m, via in _adduct_sequence(core.REPO, c['order_of_monoisotopic'], [(c['proforma'], c['kw'])])[0]:
+            print(f'monoisotopic={mono}: mass = {m!r}, chem_mass(composition) + delta = {via!r}')
+        print('violated :', obj.get('detail'))
+        return 0
     import peptacular as pt
     case = obj.get('case')
     if not isinstance(case, dict) or 'annotation' not in case:
